@@ -215,8 +215,16 @@ def check(ctx):
         g = guard_canon(prog, valid, r)
         if any("not in file_option_names" in x or "not in" in x for x in g):
             okr = True
+        # the offending keys collected by a comprehension with a 'not in' filter, the raise guarded by its non-emptiness
+        for t_, pol_ in guard_of(prog, valid, r):
+            if isinstance(t_, ast.Name) and pol_:
+                for d_ in reaching_assignments(prog, valid, t_.id, r):
+                    if isinstance(d_, (ast.ListComp, ast.SetComp)) and any(isinstance(c_, ast.Compare) and any(isinstance(o_, ast.NotIn) for o_ in c_.ops) for g_ in d_.generators for i_ in g_.ifs for c_ in ast.walk(i_)):
+                        okr = True
     ctx.check(okr, valid, raises[0] if raises else valid.node, "a key absent from the files raises ValueError", "validate_option_names no longer raises ValueError for a key that no option file defines", construct="validate raise")
     it = [n for n in ast.walk(valid.node) if isinstance(n, ast.For) and canon(n.iter) in ("self.keys()", "self", "self.items()")]
+    # ... or a comprehension over all keys whose (non-empty) result raises
+    it += [g_ for n in ast.walk(valid.node) if isinstance(n, (ast.ListComp, ast.SetComp, ast.GeneratorExp)) for g_ in n.generators if canon(g_.iter) in ("self.keys()", "self", "self.items()")]
     ctx.check(bool(it), valid, valid.node, "every key of the options object is checked", "validate_option_names does not iterate over all keys", construct="validate iteration")
 
     # ------------------------------------------------------------------ R3
